@@ -277,6 +277,12 @@ func c08Inputs(seed int64, thorough bool) (files []c08Input, profiles []c08Input
 			files = append(files, c08Input{fmt.Sprintf("%s[:%d]", sd.Name, c), sd.Bytes[:c], sd.Truth.Format, nil})
 		}
 	}
+	for _, f := range boundaryFiles(seed, true) {
+		files = append(files, c08Input{f.Name, f.Bytes, f.Truth.Format, nil})
+	}
+	for _, f := range hostileSpecials() {
+		files = append(files, c08Input{f.Name, f.Bytes, f.Truth.Format, nil})
+	}
 	for _, rf := range realFiles() {
 		if len(rf.Bytes) < 40000 {
 			files = append(files, c08Input{"real:" + rf.Name, rf.Bytes, rf.Format, nil})
@@ -293,6 +299,26 @@ func c08Inputs(seed int64, thorough bool) (files []c08Input, profiles []c08Input
 		if i%5 == 0 && len(p.bytes) > 140 {
 			cut := 100 + rng.Intn(len(p.bytes)-100)
 			profiles = append(profiles, c08Input{fmt.Sprintf("%s[:%d]", p.name, cut), p.bytes[:cut], "ICC", p.accept})
+		}
+	}
+	// hostile profiles: every length/count/offset field of the ICC seeds x boundary values (C09's matrix)
+	{
+		g := newC09Gen(seed, false)
+		step := 3
+		if thorough {
+			step = 1
+		}
+		for i := 0; i < len(g.matrix); i += step {
+			m := g.matrix[i]
+			sd := g.seeds[m.seed]
+			if sd.format != "ICC" {
+				continue
+			}
+			f := numericFields(sd.fields)[m.field]
+			v := c09Values(fieldGet(sd.data, f), f.Len, len(sd.data))[m.value]
+			d := append([]byte{}, sd.data...)
+			fieldPut(d, f, v)
+			profiles = append(profiles, c08Input{fmt.Sprintf("%s: field %s := %#x", sd.name, f.Name, v), d, "ICC", nil})
 		}
 	}
 	for _, rf := range realFiles() {
